@@ -14,11 +14,11 @@ JOBS = {
     "unify-plain": dict(module="MC_Unify", constants={"Slice": "plain"}, invariants=UNIFY_INV,
                         nontrivial=unify_nontrivial, timeout={"quick": 900, "thorough": 1800}),
     "unify-laws": dict(module="MC_Unify", constants={"Slice": "laws"}, invariants=UNIFY_INV,
-                       nontrivial=unify_nontrivial, timeout={"quick": 900, "thorough": 900}),
+                       nontrivial=unify_nontrivial, timeout={"quick": 900, "thorough": 3600}),
     "unify-sess": dict(module="MC_Unify", constants={"Slice": "sess"}, invariants=UNIFY_INV,
                        nontrivial=unify_nontrivial, timeout={"quick": 900, "thorough": 1800}),
     "unify-fn": dict(module="MC_Unify", constants={"Slice": "fn"}, invariants=UNIFY_INV,
-                     nontrivial=unify_nontrivial, timeout={"quick": 900, "thorough": 900}),
+                     nontrivial=unify_nontrivial, timeout={"quick": 900, "thorough": 3600}),
     "unify-arith": dict(module="MC_Unify", constants={"Slice": "arith"}, invariants=UNIFY_INV,
                         nontrivial=unify_nontrivial, timeout={"quick": 900, "thorough": 3000}),
 }
@@ -62,6 +62,9 @@ JOBS["session"] = dict(module="MC_Session", constants=dict(Slice="session", Dept
 
 JOBS["knowledge"] = dict(module="MC_Knowledge", constants=dict(Slice="knowledge", Depth=12), subst=BIP_SUBST,
                          invariants=["KBIsHistory", "KeysApart", "NoEmptyEntry", "FlatEquivalent", "Emit"], timeout={"quick": 900, "thorough": 3600})
+
+JOBS["repl"] = dict(module="MC_Repl", constants=dict(Slice="repl", ReplDepth=12), subst=BIP_SUBST, query_bin=True,
+                    invariants=["PromptsAndEnds", "InnerLoopEnds", "Emit"], timeout={"quick": 900, "thorough": 3600})
 
 TIMER_INV = ["NoFalseTimeout", "RealAnswers", "FastUndisturbed", "NoLateFire", "CancelReturns", "Emit"]
 JOBS["timer"] = dict(module="MC_Timer", constants=dict(Slice="timer", NQ=2, GenerationFix="TRUE"), invariants=TIMER_INV,
@@ -179,6 +182,12 @@ PROPS["X02"] = dict(jobs=["knowledge"], level="model_checking",
                          "TLC steps add_rules' loop (Knowledge.tla: KBIsHistory, KeysApart, NoEmptyEntry, FlatEquivalent); the real knowledge base is built batch by batch from constructed rules, from parsed rules "
                          "and from one source file per batch, and count_rules / get_rule / format_kb and the answers of four queries are compared",
                     assumptions=[])
+
+PROPS["X03"] = dict(jobs=["repl"], level="model_checking",
+                    rule="the `query` program (src/main.rs) as a machine with one action per turn of its two loops (Repl.tla): sessions of 0-3 (thorough 4) lines typed at the prompt -- queries with several answers, "
+                         "none, ground, functor-only, for a predicate without clauses, over not(...), with printing, and lines which are not queries; the real binary, built from the tree under test, is run with the "
+                         "typed lines on its standard input and its output must be the transcript of the machine",
+                    assumptions=["the text of a parse error is not specified: any one line"])
 
 LEVEL_TEXT = ("TLC explores the relevant state machine of the TLA+ specification exhaustively over a bounded universe, checks the property as "
               "invariants of the specification against an independent declarative definition in the same modules, and every explored behaviour "
